@@ -79,6 +79,12 @@ pub fn check(c: &Case) -> CheckResult {
                             }
                         }
                         o.class("clip-coverage:probe-render");
+                        // ... and, independently of any rendering, the pixels that the f64 outline puts outside
+                        if xf_det(&c.xf) != 0.0 {
+                            for (i, out) in crate::geom::certainly_outside(p, &c.xf, w, h).iter().enumerate() {
+                                z[i] |= *out;
+                            }
+                        }
                     }
                 }
             }
@@ -119,6 +125,18 @@ pub fn check(c: &Case) -> CheckResult {
             }
         }
         o.class("shape-coverage:probe-render");
+        // the probe trusts the library's own rasterisation of curves; the f64 outline does not
+        if let Op::Fill(p, ..) = &c.draw {
+            let mut extra = 0;
+            for (i, out) in crate::geom::certainly_outside(p, &c.xf, w, h).iter().enumerate() {
+                if *out && !z[i] {
+                    extra += 1;
+                }
+                z[i] |= *out;
+            }
+            o.class_if(extra > 0, "zero-coverage-from-f64-outline-only");
+            o.class("shape-coverage:f64-outline");
+        }
     } else {
         shape_known = matches!(c.draw, Op::Clear(_));
     }
